@@ -1059,8 +1059,12 @@ impl<'a> Read for ZipFile<'a> {
     }
 }
 
-impl<'a> Drop for ZipFile<'a> {
-    fn drop(&mut self) {
+impl<'a> ZipFile<'a> {
+    /// Reads and discards what is left of an entry handed out by a streaming reader, so that the
+    /// underlying stream stands at the next header. All decryption, decompression and CRC
+    /// calculation is skipped. Unlike `Drop`, which runs the same loop, this reports a read error.
+    /// Does nothing for an entry of a `ZipArchive`, or when called a second time.
+    pub(crate) fn drain_stream(&mut self) -> io::Result<()> {
         // self.data is Owned, this reader is constructed by a streaming reader.
         // In this case, we want to exhaust the reader so that the next file is accessible.
         if let Cow::Owned(_) = self.data {
@@ -1068,10 +1072,11 @@ impl<'a> Drop for ZipFile<'a> {
 
             // Get the inner `Take` reader so all decryption, decompression and CRC calculation is skipped.
             let mut reader: std::io::Take<&mut dyn std::io::Read> = match &mut self.reader {
-                ZipFileReader::NoReader => {
-                    let innerreader = ::std::mem::replace(&mut self.crypto_reader, None);
-                    innerreader.expect("Invalid reader state").into_inner()
-                }
+                ZipFileReader::NoReader => match self.crypto_reader.take() {
+                    Some(innerreader) => innerreader.into_inner(),
+                    // already drained
+                    None => return Ok(()),
+                },
                 reader => {
                     let innerreader = ::std::mem::replace(reader, ZipFileReader::NoReader);
                     innerreader.into_inner()
@@ -1082,12 +1087,20 @@ impl<'a> Drop for ZipFile<'a> {
                 match reader.read(&mut buffer) {
                     Ok(0) => break,
                     Ok(_) => (),
-                    // Nothing can be reported from `drop`; the next read on the underlying
-                    // stream will surface the problem.
-                    Err(_) => break,
+                    Err(ref e) if e.kind() == io::ErrorKind::Interrupted => (),
+                    Err(e) => return Err(e),
                 }
             }
         }
+        Ok(())
+    }
+}
+
+impl<'a> Drop for ZipFile<'a> {
+    fn drop(&mut self) {
+        // Nothing can be reported from `drop`: after a read error the stream is left inside the
+        // entry. `ZipStreamReader::visit` drains every entry itself and does report it.
+        let _ = self.drain_stream();
     }
 }
 
